@@ -752,6 +752,7 @@ def gen_C17(seed, tier):
         # first overload
         body.append("call IK1 %s %s %d %d %s" % ("1/1000000000000", "1/100", 80, len(bodies),
                     " ".join("%d %s %s" % (b, G.frs(p), G.frs(t)) for b, p, t in zip(bodies, pts, tg))))
+        body.append(body[-1].replace("call IK1 ", "call IK1T ", 1))     # iteration probes vs the modelled loop
         # constraint-set overload: point-only set, then mixed set; loose constraint_tol in one variant
         ctol = g.r.choice(["1/1000000000000", "1/1000", "1/100000"])
         kinds = [g.r.choice(["p", "xy", "z"]) for _ in bodies]
@@ -759,11 +760,13 @@ def gen_C17(seed, tier):
                         for k, b, p, t, R in zip(kinds, bodies, pts, tg, Rs))
         # every other case: the same problem on a constraint set that was used before and cleared
         body.append("call %s %s %d %s %s %d %s" % ("IK2c" if i % 2 else "IK2", "1/1000000000", 120, "1/100000000000000", ctol, len(bodies), cons))
+        body.append(body[-1].replace("call IK2c ", "call IK2 ", 1).replace("call IK2 ", "call IK2T ", 1))
         if reachable:
             kinds2 = [g.r.choice(["f", "o", "p"]) for _ in bodies]
             cons2 = " ".join("%s %d %s %s %s 1" % (k, b, G.frs(p), G.frs(t), G.frs(R))
                              for k, b, p, t, R in zip(kinds2, bodies, pts, tg, Rs))
             body.append("call IK2 %s %d %s %s %d %s" % ("1/1000000000", 200, "1/100000000000000", "1/10000000000", len(bodies), cons2))
+            body.append(body[-1].replace("call IK2 ", "call IK2T ", 1))
         cid = "c17ik%s_%d" % ("reach" if reachable else "unreach", i)
         out.append("case " + cid); out.append(grav); out += mb.lines; out += body
         sigs.add((tuple(mb.kinds), reachable, tuple(kinds)))
@@ -791,6 +794,7 @@ def gen_C17(seed, tier):
         init = mb.perturb_q(cb.q_ents, F(1, 16)) if made % 4 != 3 else mb.q_struct()
         body.append(mb.render_q(init))
         body.append("call CAQ %s %d %s" % ("1/10000000000", 60, G.frs(wts)))
+        body.append(body[-1].replace("call CAQ ", "call CAQT ", 1))
         cid = "c17asm%s_%d" % (klass, made)
         out.append("case " + cid); out.append(grav); out += mb.lines; out += body
         made += 1
@@ -1521,10 +1525,10 @@ PROPS = {
             "rule": "constraint sets of the finding-free classes on fixed- and floating-base models; two random actuation maps per case with 1..nc unactuated coordinates; isConstrainedSystemFullyActuated, the relaxed operator always, the exact operator checked when G P^T has full column rank (exact rank over Q)",
             "explanation": "certificates with the specification: G qddot = gamma, tau zero on unactuated coordinates, H qddot + N = tau + G^T lambda, actuated accelerations reproduced by the exact operator; full-actuation test against the exact rank of G P^T",
             "assumptions": COMMON_ASSUMPTIONS},
-    "C17": {"gen": gen_C17, "level": "other",
-            "rule": "inverse kinematics (both overloads) on random models without quaternion joints: reachable targets (taken from the exact model at a goal configuration), unreachable targets, nearby / random initial guesses, point / XY / Z / orientation / full constraints, weights, three constraint_tol settings, with an iteration-cap probe of the termination test; CalcAssemblyQ from nearby / random guesses and CalcAssemblyQDot on loop-constrained models (incl. spherical joints) with random positive weights",
-            "explanation": "certificates with independently evaluated exact kinematics (cos / sin of the returned doubles by a 2^-100 fixed-point series): reported IK success implies residual = reported error norm, termination honours constraint_tol / step_tol (the run capped one step earlier had not met them), outputs finite and correctly sized; assembly success implies |phi(Q)| < tolerance and unit quaternions; assembled velocities satisfy G qdot = 0 and the weighted least-squares optimality condition. Convergence itself is not claimed.",
-            "level_text": "partial: soundness of reported success is checked by certificate on every run; the theorems cover the algebra of the returned relations, not convergence of the iterations",
+    "C17": {"gen": gen_C17,
+            "rule": "inverse kinematics (both overloads) on random models without quaternion joints: reachable targets (taken from the exact model at a goal configuration), unreachable targets, nearby / random initial guesses, point / XY / Z / orientation / full constraints, weights, three constraint_tol settings, with an iteration-cap probe of the termination test; CalcAssemblyQ from nearby / random guesses and CalcAssemblyQDot on loop-constrained models (incl. spherical joints) with random positive weights; every solver call is repeated as an iteration probe (IK1T / IK2T / CAQT: the library routine called with iteration caps 0 1 2 n-2 n-1 n, n = first cap that reports success)",
+            "explanation": "theorems about the code-shaped model of the four routines (Rbdl/Iter.lean, linear solver a parameter): reported success => residual test passed OR (IK only) step test passed, for every solver and every cap; failure => last iterate, sizes kept; tests monotone in and reading the documented tolerance; unit quaternions after every assembly pass; KKT solution => G qdot = 0 and weighted-least-squares optimal. Correspondence model <-> implementation: one modelled pass (exact rationals, exact linear solve) from the implementation's own iterate at cap k must reproduce flag and iterate at cap k+1 (IK constraint-set overload: flag, error norm and the step seen through J, since the null-space part of its step is rounding noise / lambda), the modelled run from the start must reproduce caps 0 and 2, the modelled CalcAssemblyQDot must reproduce the velocities; comparisons whose termination tests are within floating-point noise of the threshold are skipped. Certificates on every run as before: independently evaluated exact kinematics (cos / sin of the returned doubles by a 2^-100 fixed-point series): reported IK success implies residual = reported error norm, termination honours constraint_tol / step_tol, outputs finite and correctly sized; assembly success implies |phi(Q)| < tolerance and unit quaternions; assembled velocities satisfy G qdot = 0 and the weighted least-squares optimality condition. Convergence itself is not claimed.",
+            "level_text": "proof + correspondence for the solver logic (termination tests, updates, sizes, normalisation, KKT characterisation); the linear solves and the transcendental functions are parameters of the model; the IK overloads report success on a short step whatever the residual (witnesses in Props/C17.lean), so 'success => solution' holds for them only in the form proved",
             "assumptions": COMMON_ASSUMPTIONS},
     "C13": {"gen": gen_C13,
             "rule": "for random models and 4 routines each (22 public routines): a pristine model called with state B versus the same model after 1-3 earlier calls with state A and external forces A, then a deterministic poisoning of every free workspace entry, then the call with state B; flag-cleared variants after the documented predecessor; constraint-set routines after earlier calls on the same set; distinct = distinct (model shape, routine, history)",
